@@ -1619,13 +1619,13 @@ func TestVerifC10(t *testing.T) {
 	defer func() { out.Note("discarded_for_timing", c10Discarded) }()
 	rnd := vfNewRand(out.Seed)
 
-	c10ConfCases(out, rnd.Fork(4242), out.Scale(150, 3000))
+	c10ConfCases(out, rnd.Fork(4242), out.Scale(100, 3000))
 	m := []uint64{1, 2, 3, 4}
 	for _, h := range c10Prelude(m) {
 		c10Run(t, out, h)
 	}
 
-	n := out.Scale(400, 8000)
+	n := out.Scale(350, 8000)
 	for i := 0; i < n; i++ {
 		r := rnd.Fork(uint64(i))
 		cf := c10DefaultConf(3 + r.Intn(4))
